@@ -133,7 +133,18 @@ pub enum Op {
     CloneSelf,
     /// `arr.clone_from(&src)` with a freshly built source of shape (c, r)
     CloneFrom { c: usize, r: usize, extra_cap: usize },
-    FromView { win: Win, mutable: bool },
+    /// `TooDee::from(view)`; with `via_into` (and `mutable`) the mutable view is first converted
+    /// with `TooDeeView::from(view_mut)`
+    FromView {
+        win: Win,
+        mutable: bool,
+        #[serde(default)]
+        via_into: bool,
+        /// a window of the window: the array is built from `view(win).view(inner)` (or the
+        /// `view_mut` chain)
+        #[serde(default)]
+        inner: Option<Win>,
+    },
     // ---- structural edits
     InsertRow { idx: usize, len: usize, lie: Lie },
     PushRow { len: usize, lie: Lie },
